@@ -118,7 +118,25 @@ func (e *ForgeEngine) Prepare(chain consensus.ChainReader, header *types.Header)
 func (e *ForgeEngine) Seal(chain consensus.ChainReader, block *types.Block, stop <-chan struct{}) (*types.Block, error) {
 	e.mu.Lock()
 	defer e.mu.Unlock()
-	sealed, votes, err := SealHonest(e.ctx, block, e.proposer, e.Keys)
+	var (
+		sealed *types.Block
+		votes  []*SignedVote
+		err    error
+	)
+	func() {
+		// The forge computes the honest network's credentials with the real sortition code. On
+		// look-back states no real network can run on (total online stake below the committee
+		// size makes the selection probability exceed 1, and the binomial library panics) that
+		// is a dead end of the GENERATOR, found by the thorough tier: no block is built, the
+		// caller sees the error. (The same call would take down a real validator; sortition
+		// robustness is C04's subject, not applicable to this technique.)
+		defer func() {
+			if v := recover(); v != nil {
+				err = fmt.Errorf("forge dead end: sortition on the look-back state panicked: %v", v)
+			}
+		}()
+		sealed, votes, err = SealHonest(e.ctx, block, e.proposer, e.Keys)
+	}()
 	if err != nil {
 		e.LastErr = err
 		return nil, err
